@@ -12,6 +12,12 @@ canonicalised arguments; the physical constants R, F (kJ/V/eq and C/mol), eps0, 
                diffuse layer (Gouy-Chapman)  sqrt(8 eps eps0 R T 1000 1000) sqrt(I) sinh(la ln10) - q F/(A g);
                constant capacitance  C (2 la ln10 R T/F) - q F/(A g);
                CD-MUSIC  sigma0 - C0 (psi0 - psi1),  (sigma0 + sigma1) - C1 (psi1 - psi2), with sigma_k = q_k F/(A g)
+  C20.deltaz   "each surface species satisfies its mass-action equation including the electrostatic term": the exponent of the term is
+               the charge moved to the surface, summed in add_potential_factor over the dissolved reactants of the (rewritten)
+               equation.  The membership test of that sum is evaluated over the finite domain of species classes (codes
+               recovered from the reader: aqueous 0, H+, H2O, e-, solids, exchange and surface species): it must accept aqueous
+               species, H+ and e- (redox-rewritten equations carry e-) and nothing that is not dissolved (H2O, z = 0, may be
+               either way)
 Not decided: site balance and mass action of every surface species (properties of the numerical solution), the diffuse-layer
 integration (calc_all_g / Donnan), read-out values.
 """
@@ -148,6 +154,7 @@ def statements_with_path(f):
 def run(P, R, tier):
     R.undecided += ["site balance and mass action of every surface species at the reported solution (numerical)",
                     "diffuse-layer integration (calc_all_g, Donnan), ion excess = surface charge (numerical)"]
+    deltaz_rule(P, R)
     R.rule("C20.psi", "every potential conversion is psi = 2 la ln10 R T/F (DDL, CCM) or psi = -la ln10 R T/F (CD-MUSIC planes), matching the selected model", minimum=12)
     R.rule("C20.sigma", "every charge-density conversion is sigma = q F/(A g) or q = sigma A g/F", minimum=15)
     S = RF.Rat.sym
@@ -287,3 +294,71 @@ def run(P, R, tier):
     for k, v in found.items():
         if v == 0:
             R.anchor_missing("C20.laws", "residuals: no %s charge-balance residual found" % k)
+
+
+def deltaz_rule(P, R):
+    R.rule("C20.deltaz", "the charge sum of the electrostatic term accepts exactly the dissolved charged reactant classes: aqueous, H+, e-", minimum=1)
+    # class codes from the reader
+    codes = {}
+    for key, f in sorted(P.functions.items()):
+        if not f["q"].startswith("Phreeqc::read_"):
+            continue
+        for x in T.walk(f["body"]):
+            if x[0] == "Bin" and x[2] == "=":
+                t = T.strip_casts(x[3])
+                if t[0] == "Member" and t[2] == "species::type" and T.is_node(t[3]):
+                    b = T.strip_casts(t[3])
+                    v = T.lit_value(x[4])
+                    if b[0] == "Member" and b[2].split("::")[-1] in ("s_hplus", "s_eminus", "s_h2o") and v is not None:
+                        codes[b[2].split("::")[-1]] = v
+    if set(codes) != {"s_hplus", "s_eminus", "s_h2o"}:
+        R.anchor_missing("C20.deltaz", "species class codes of H+, e-, H2O not recovered from the readers (%s)" % codes)
+        return
+    classes = {"aqueous": (0, None), "H+": (codes["s_hplus"], "s_hplus"), "H2O": (codes["s_h2o"], "s_h2o"), "e-": (codes["s_eminus"], "s_eminus")}
+    mx = max(codes.values())
+    for k in range(mx + 1, mx + 6):
+        classes["class %d (solid / exchange / surface / potential)" % k] = (k, None)
+    f = P.one("Phreeqc::add_potential_factor")
+    where = dict(file=f["file"], function=f["q"])
+    site = None
+    for x in T.walk(f["body"]):
+        if x[0] == "If" and any(w[0] == "Bin" and w[2] == "+=" and T.text(w[3]) == "sum_z" for w in T.walk(x[3])):
+            site = x
+    if site is None:
+        R.anchor_missing("C20.deltaz", "add_potential_factor: the charge sum `sum_z += z * coef` under a class test not found")
+        return
+
+    class Unknown(Exception):
+        pass
+
+    def ev(n, cls):
+        n = T.strip_casts(n)
+        code, glob = cls
+        if n[0] == "Bin" and n[2] in ("||", "&&"):
+            a, b = ev(n[3], cls), ev(n[4], cls)
+            return (a or b) if n[2] == "||" else (a and b)
+        if n[0] == "Un" and n[2] == "!":
+            return not ev(n[3], cls)
+        if n[0] == "Bin" and n[2] in ("==", "!=", "<", "<=", ">", ">="):
+            l, r = T.strip_casts(n[3]), T.strip_casts(n[4])
+            if l[0] == "Member" and l[2] == "species::type" and T.lit_value(r) is not None:
+                v = T.lit_value(r)
+                return {"==": code == v, "!=": code != v, "<": code < v, "<=": code <= v, ">": code > v, ">=": code >= v}[n[2]]
+            for a, b in ((l, r), (r, l)):
+                if b[0] == "Member" and b[2].split("::")[-1] in ("s_hplus", "s_eminus", "s_h2o") and n[2] in ("==", "!="):
+                    same = glob == b[2].split("::")[-1]
+                    return same if n[2] == "==" else not same
+        raise Unknown(T.text(n)[:60])
+    try:
+        acc = sorted(nm for nm, cls in classes.items() if ev(site[2], cls))
+    except Unknown as e:
+        R.anchor_missing("C20.deltaz", "add_potential_factor: class test not evaluable (%s)" % e)
+        return
+    need = {"aqueous", "H+", "e-"}
+    extra = set(acc) - need - {"H2O"}
+    if need <= set(acc) and not extra:
+        R.ok("C20.deltaz", "add_potential_factor", "accepts %s" % ", ".join(acc))
+    else:
+        R.violation("C20.deltaz", "add_potential_factor", "the charge sum of the electrostatic term accepts {%s}: %s%s - the potential coefficient of a surface species whose rewritten "
+                    "equation contains such a reactant is wrong by its charge" % (", ".join(acc), ("it leaves out %s" % ", ".join(sorted(need - set(acc)))) if need - set(acc) else "",
+                                                                                   (" it includes %s" % ", ".join(sorted(extra))) if extra else ""), line=site[1], **where)
